@@ -35,7 +35,7 @@ def bind_defaults(e, obj, pool):
                 bind_defaults(sub, live, pool)
     elif t == "coll":
         for k, sub in e["items"]:
-            if sub["t"] != "copy":
+            if sub["t"] not in ("copy", "alias"):
                 bind_defaults(sub, getattr(obj, "__dict__", {}).get(str(k)), pool)
 
 
